@@ -35,6 +35,7 @@ int main(void) {
 		CHECK(k >= 1 && p + k < IN.len, "an accepted attribute has a non-empty key followed by more text");
 		CHECK(BYTE(p + k) == '=', "the key is followed by '='");
 		uint64_t q = p + k + 1;
+		if (q < IN.len && (BYTE(q) == ' ' || BYTE(q) == '\t')) CHECK(ir_scan_value(base + q) == 0, "a value never starts with a blank: asked about the blank after '=', scan_value reports an empty value");
 		for (unsigned g = 0; g < N; g++) if (q < IN.len && (BYTE(q) == ' ' || BYTE(q) == '\t')) q++;      /* parse_attributes skips blanks after '=' (the `attr` pattern allows them) */
 		CHECK(q <= IN.len, "the value starts inside the string");
 		uint64_t v = ir_scan_value(base + q);
